@@ -180,7 +180,7 @@ CLAIMS = {
              "requires, software fade steps are clamped and end on the target; a running software fade is cancelled "
              "before a newer command takes effect; the batch system records every value it sends and skips only "
              "finished fades equal to the recorded state. Correctness of the suppression shortcuts over histories, "
-             "interpolated values and batching are not decided. Also: colour read from stack[0] and a transparent entry defers to exactly stack[1:]; both colours gamma/colour corrected before the channel split, white = min(r,g,b); set_fade ends in a command for the target or a fade task whose last command is the target; every dirty light ends up in a sent batch, unfinished fades are rescheduled and the scheduler is woken.",
+             "interpolated values and batching are not decided. Also: colour read from stack[0] and a transparent entry defers to exactly stack[1:]; both colours gamma/colour corrected before the channel split, white = min(r,g,b); set_fade ends in a command for the target or a fade task whose last command is the target; every dirty light ends up in a sent batch, unfinished fades are rescheduled and the scheduler is woken; the blend ratio of a running fade is (t - start) / (end - start), used only where start < t <= end, with the endpoint itself returned outside (interpolation never leaves the endpoints); a new fade starts from the colour shown below the new entry, read before the old entry of the same key is removed.",
         technique="who-may-write; CFG must-pass / definite assignment; guard analysis; unit inference; sibling interface completeness",
         ref="4/C09"),
     "C10": dict(
